@@ -97,6 +97,9 @@ fn parse_args() -> Result<Args, String> {
 fn main() {
     {
         let a: Vec<String> = std::env::args().collect();
+        if a.len() == 3 && a[1] == "--child-gen" {
+            std::process::exit(props::c19::child_gen(&a[2]));
+        }
         if a.len() == 6 && a[1] == "--child-write-graph" {
             std::process::exit(props::c13::child_write_graph(&a[2], &a[3], a[4].parse().unwrap_or(0), a[5].parse().unwrap_or(0)));
         }
@@ -132,6 +135,7 @@ fn main() {
         "C05" => dispatch(&props::c05::C05, &env, &args),
         "C13" => dispatch(&props::c13::C13, &env, &args),
         "C18" => dispatch(&props::c18::C18, &env, &args),
+        "C19" => dispatch(&props::c19::C19, &env, &args),
         other => {
             eprintln!("qsim: no check for property '{other}'");
             2
